@@ -108,6 +108,12 @@ class CompiledLogicNet(torch.nn.Module):
 
         # Parse all layers and track execution order
         for layer in self.model:
+            for base in (LogicConv2d, LogicConv3d, OrPooling, LogicDense, GroupSum, torch.nn.Flatten, torch.nn.Identity):
+                if isinstance(layer, base) and type(layer).forward is not base.forward:
+                    # a subclass with its own forward computes something else than the layer that would be translated
+                    raise ValueError(
+                        f"Cannot compile a {type(layer).__name__}: it overrides the forward of {base.__name__}."
+                    )
             if isinstance(layer, LogicConv2d):
                 conv_info = self._extract_conv_layer_info(layer)
                 self.conv_layers.append(conv_info)
